@@ -209,6 +209,7 @@ def _run_shard(binary, chunk, fn, timeout):
     RUNNER-ABORTED and the run resumes with the next case"""
     lines = []
     start = 0
+    timeouts = 0
     while start < len(chunk):
         with open(fn, "w") as f:
             f.write("\n".join(chunk[start:]) + "\n")
@@ -227,6 +228,10 @@ def _run_shard(binary, chunk, fn, timeout):
         lines += out
         if out and out[-1].startswith("HARNESS-TIMEOUT"):
             start += len(out)          # the watchdog reported the case itself, then left
+            timeouts += 1
+            if timeouts >= 3:          # a change that makes many cases hang: three reports are enough for this shard
+                lines += ["HARNESS-SKIPPED after repeated timeouts"] * (len(chunk) - start)
+                break
             continue
         lines.append("RUNNER-ABORTED rc=%s" % rc)
         start += len(out) + 1
@@ -349,7 +354,7 @@ def main():
             mouts = run_cases(os.path.join(WORK, "ocaml", "driver"), cases, st["name"] + ".model")
             nd = 0
             for prof in profiles:
-                bad = [(c, i, m) for c, i, m in zip(cases, outs[prof], mouts) if i != m]
+                bad = [(c, i, m) for c, i, m in zip(cases, outs[prof], mouts) if i != m and not i.startswith("HARNESS-SKIPPED")]
                 nd += len(bad)
                 if bad:
                     bad.sort(key=lambda x: len(x[0]))
@@ -365,11 +370,15 @@ def main():
                     vcase = c
                     if not verdict and st.get("oracle_prefix"):
                         # search: hand the disagreeing cases to the implementation-only property oracle
-                        ocs = [st["oracle_prefix"] + x[0][x[0].index(" "):] for x in bad[:200]]
-                        oouts = run_cases(harness_bin(prof), ocs, st["name"] + ".search")
-                        for oc, oo in zip(ocs, oouts):
-                            if not oo.startswith("PASS") and not match_known(known, oc, oo):
-                                verdict, vcase = "oracle on disagreeing case: " + oo, oc
+                        prefixes = st["oracle_prefix"] if isinstance(st["oracle_prefix"], list) else [st["oracle_prefix"]]
+                        for pre in prefixes:
+                            ocs = [pre + x[0][x[0].index(" "):] for x in bad[:200]]
+                            oouts = run_cases(harness_bin(prof), ocs, st["name"] + ".search")
+                            for oc, oo in zip(ocs, oouts):
+                                if not oo.startswith("PASS") and not oo.startswith("HARNESS-ERROR") and not match_known(known, oc, oo):
+                                    verdict, vcase = "oracle on disagreeing case: " + oo, oc
+                                    break
+                            if verdict:
                                 break
                     if kh and all(match_known(known, c2, i2) for c2, i2, _ in bad):
                         known_hits.append(kh)
@@ -383,7 +392,7 @@ def main():
         else:  # oracle stream: implementation-only property check, PASS / FAIL lines
             nf = 0
             for prof in profiles:
-                bad = [(c, o) for c, o in zip(cases, outs[prof]) if not o.startswith("PASS")]
+                bad = [(c, o) for c, o in zip(cases, outs[prof]) if not o.startswith("PASS") and not o.startswith("HARNESS-SKIPPED")]
                 unknown_bad = []
                 for c, o in bad:
                     kh = match_known(known, c, o)
